@@ -842,9 +842,9 @@ def _build_edges(phi, reliability, mask=None, wrap_around=True):
         inc = _find_wrap(phi_f[i1], phi_f[i2])
         rel = rel_f[i1] + rel_f[i2]
 
-        edges.append(  # ty:ignore[possibly-missing-attribute]
-            torch.stack([i1, i2, rel, inc], dim=1)
-        )
+        # keep the index and increment columns as integer tensors: stacking them with
+        # the float32 reliabilities rounds pixel indices above 2**24
+        edges.append((i1, i2, rel, inc))  # ty:ignore[possibly-missing-attribute]
 
     if wrap_around:
         add_edges(idx.flatten(), torch.roll(idx, -1, 1).flatten())
@@ -853,14 +853,14 @@ def _build_edges(phi, reliability, mask=None, wrap_around=True):
         add_edges(idx[:, :-1].flatten(), idx[:, 1:].flatten())
         add_edges(idx[:-1, :].flatten(), idx[1:, :].flatten())
 
-    edges = torch.cat(edges, dim=0)
-    edges = edges[edges[:, 2].argsort()]
+    i1, i2, rel, inc = (torch.cat(col, dim=0) for col in zip(*edges))
+    order = rel.argsort()
 
     # return integer tensors only (CPU)
     return (
-        edges[:, 0].long(),
-        edges[:, 1].long(),
-        edges[:, 3].long(),
+        i1[order].long(),
+        i2[order].long(),
+        inc[order].long(),
     )
 
 
